@@ -16,7 +16,7 @@
                                disqualifications
      profile                   the constructor that made the model: DailyModel(model="current"),
                                DailyModel(model="legacy"), BillingModel()                                      *)
-From Coq Require Import Reals ZArith List Bool String PrimFloat.
+From Coq Require Import Reals Lra ZArith List Bool String PrimFloat.
 From V Require Import Model.Num Model.NumR Model.NumF Model.DailyCurve Model.Json Model.DocSchema Model.DailyDoc
                       Generated.C01Gen Proofs.DailyCurveProofs Proofs.DailyDocProofs Proofs.DailyClosedFormProofs.
 Import ListNotations.
@@ -175,6 +175,20 @@ Theorem C01_daily_closed_form : forall c tc, admissible lo hi c tc -> off_corner
           H_term lo hi (eff lo hi c tc) T, C_term lo hi (eff lo hi c tc) T).
 Proof. exact (daily_closed_form_l lo hi (proj1 R_ln_bounds) (proj2 R_ln_bounds)). Qed.
 Print Assumptions C01_daily_closed_form.
+
+(* non-vacuity: a heating-and-cooling document inside the optimiser box, away from the corner *)
+Example C01_closed_form_nonvacuous :
+  let c := Build_coeffs RNum HddTiddCdd 20%R (Some 50%R) (Some 1.5%R) None (Some 65%R) (Some 2%R) None in
+  let tc := Build_tconstr RNum 10%R 90%R 12%R 88%R in
+  admissible lo hi c tc /\ off_corner lo hi c tc.
+Proof.
+  cbv zeta.
+  assert (Ha : admissible lo hi (Build_coeffs RNum HddTiddCdd 20%R (Some 50%R) (Some 1.5%R) None (Some 65%R) (Some 2%R) None)
+                                (Build_tconstr RNum 10%R 90%R 12%R 88%R)).
+  { unfold admissible, bounds_ok. cbn. repeat split; Lra.lra. }
+  split; [exact Ha|]. apply (upper_below_Tmax_off_corner lo hi _ _ Ha).
+  unfold upper_bp. cbn. Lra.lra.
+Qed.
 
 (* S is the documented k (u + e^-u - 1) wherever the package's exp clip is not reached (u <= 331.17) *)
 Theorem C01_hinge_documented : forall d k : R, k <> 0%R -> (lo <= - (Rmax d 0 / k))%R ->
